@@ -233,7 +233,10 @@ def run(ctx):
                                encoded[rng.randrange(len(encoded))][1], b'7777', b'BUFR'])
         leading = rng.choice([b'', b'', b'\r\r\n', b'BUF', bytes(rng.randrange(65) for _ in range(rng.randrange(1, 5)))])
         # the FM-94 reading of two surplus octets in section 3: one more descriptor (000000)
-        plus2 = fc.parse_frame(b)['sections'][3][1] - (7 + 2 * len(c['bits'])) >= 2
+        try:
+            plus2 = fc.parse_frame(b)['sections'][3][1] - (7 + 2 * len(c['bits'])) >= 2
+        except (ValueError, KeyError, IndexError):
+            plus2 = False        # badly framed output of a (mutated) encoder: already reported above
         for info in ((False, True) if (thorough or i % 2 == 0) else (False,)):
             dcases.append({'hex': (leading + b + trailing).hex(), 'sig': True, 'info': info, 'ignexp': False,
                            'want': 'err 2' if (plus2 and not info) else 'ok', 'msg_hex': b.hex()})
